@@ -10,9 +10,9 @@ structure Url where
   user : Bytes                 -- `username()` ("" if none)
   pass : Option Bytes          -- `password()`
   host : Bytes                 -- `host_str()`: lower-cased domain, dotted IPv4, or bracketed IPv6
-  hostKind : Nat               -- 0 domain, 1 IPv4 literal, 2 IPv6 literal
+  hostKind : Nat               -- 0 domain, 1 IPv4 literal, 2 IPv6 literal, 9 no host (`host_str()` is None)
   port : Option Nat            -- `port()`: none when it is the scheme's default
-  effPort : Nat                -- `port_or_known_default()`
+  effPort : Nat                -- `port_or_known_default()` (0: None — the scheme has no known default)
   path : Bytes
   query : Option Bytes
   fragment : Option Bytes
